@@ -87,6 +87,17 @@ def run(cx, rep):
         rep.ob("C05.1", "is_subtype", ok, "is_subtype(a, b) must be is_empty(a.diff(b)) with this argument order; found diff(%s, %s)" % (
             locals_in(diffs[0]["recv"]) if diffs else "?", locals_in(diffs[0]["args"][0]) if diffs else "?"), "%s:%s" % (F.fns[impl + "is_subtype"].file, t["body"]["line"]),
             sample={"fn": "is_subtype", "shape": "is_empty(diff(%s,%s))" % (ps[0], ps[1])})
+    # the four definitional functions are single expressions: no extra branch may answer without consulting emptiness
+    for nm in ("is_subtype", "is_same_type", "is_empty", "complement"):
+        tt = F.hir.get(impl + nm)
+        if tt is None:
+            continue
+        extra = [n for n in walk(tt["body"]) if n["k"] in ("If", "Ret", "Loop") or (n["k"] == "Match" and not (n.get("src") or "").startswith("TryDesugar") and not
+                 any((a["pat"].get("def") or "").endswith("IsEmptyStatus::IsEmpty") for a in n["arms"]))]
+        extra = [n for n in extra if not any("desugar" in m for m in (n.get("mac") or []))]
+        rep.ob("C05.1", "%s/single-expression" % nm, not extra,
+               "%s has additional control flow (%s at line %s): a shortcut that answers without computing the difference's emptiness can disagree with it (an uninhabited object/tuple component is only discovered by the emptiness check)" % (
+                   nm, extra[0]["k"] if extra else "", extra[0]["line"] if extra else ""), F.fns[impl + nm].loc(), sample={"fn": nm, "extra_control_flow": len(extra)})
     t = F.hir.get(impl + "is_same_type")
     if t is None:
         rep.anchor_missing("C05.1", impl + "is_same_type")
